@@ -16,6 +16,8 @@ R01.3 pass-through identity ("the very same objects"): in the pass-through tools
       yield exactly the awaited result of the user function (or the initial value).
 R01.4 source order: tools combining several sources visit them in argument order (the loop
       iterable is the bare container or ``enumerate(container)``).
+R01.5-R01.9 see LEVEL; R01.10 islice table (rules/c05.py); R01.11 zip_longest table
+      (rules/lockstep.py): rows and items taken per source over 124 cells.
 """
 from __future__ import annotations
 
@@ -37,11 +39,16 @@ LEVEL = {
                "yield); (R01.4) multi-source tools visit their sources in argument order (zip arguments of lock-step tools in parameter "
                "order); (R01.5) a finishing tee child removes exactly its own buffer; (R01.6) merge recomputes the sort key "
                "for every newly pulled head; (R01.7) items are opaque: identity tests on items only against private sentinels; (R01.8) "
-               "public defaults equal the stdlib's; (R01.9) every yield is reachable and one-to-one tools yield between pulls.",
-    "not_decided": "value-level equality of the produced sequences for arbitrary inputs and parameters (islice "
-                   "start/stop/step arithmetic, zip/zip_longest/batched lengths, accumulate values, tee contents) — a "
+               "public defaults equal the stdlib's; (R01.9) every yield is reachable and one-to-one tools yield between pulls; "
+               "(R01.10) islice and (R01.11) zip_longest as finite tables by abstract evaluation: islice's yielded indexes and "
+               "items pulled for 64 slicings x 3 source lengths, zip_longest's rows and items taken per source for 1-3 argument "
+               "positions holding 1-3 iterator objects (one object possibly in several positions) of 0-3 items each, both "
+               "against the rule of the itertools function (the thorough tier checks those rules against the interpreter's itertools).",
+    "not_decided": "value-level equality of the produced sequences for arbitrary inputs and parameters (islice and zip_longest "
+                   "beyond the stated cubes, zip/batched lengths, accumulate values, tee contents) — a "
                    "function of run-time data that no static argument here bounds.",
-    "technique": "static analysis: order algebra by finite-domain abstract evaluation, raise-type table, yield-origin dataflow",
+    "technique": "static analysis: order algebra and islice / zip_longest tables by finite-domain abstract evaluation, "
+                 "raise-type table, yield-origin dataflow",
 }
 
 PASS_THROUGH = ["builtins.zip", "builtins._zip_inner", "builtins._zip_inner_strict", "builtins.filter",
